@@ -149,6 +149,8 @@ class RpcChannel {
     unsigned int m_buffer_size;  // size of the buffer
     unsigned int m_expected_size;  // the total size of the current msg
     unsigned int m_current_size;  // the amount of data read for the current msg
+    uint8_t m_header[4];  // the header bytes of the next msg
+    unsigned int m_header_read;  // the number of header bytes read so far
     HASH_NAMESPACE::HASH_MAP_CLASS<int, class OutstandingRequest*> m_requests;
     ResponseMap m_responses;
     ExportMap *m_export_map;
@@ -156,7 +158,7 @@ class RpcChannel {
 
     bool SendMsg(RpcMessage *msg);
     int AllocateMsgBuffer(unsigned int size);
-    int ReadHeader(unsigned int *version, unsigned int *size) const;
+    int ReadHeader(unsigned int *version, unsigned int *size);
     bool HandleNewMsg(uint8_t *buffer, unsigned int size);
     void HandleRequest(RpcMessage *msg);
     void HandleStreamRequest(RpcMessage *msg);
